@@ -146,6 +146,11 @@ package journal
 //@ def needsReval(k amounts.Key, q amounts.Amounts, v *commodity.Commodity) bool := k.Commodity != v && isAL(k.Account) && q[k] != 0
 //@ def adjustment(tr *transaction.Transaction, d *Day) bool := okTx(tr) && tr.Postings[1].Quantity == 0 && tr.Postings[0].Quantity == 0 && tr.Date == d.Date
 //
+// adjFor: the adjustment books exactly (price today - price before) x quantity of position k, truncated,
+// on the account of k (and its negative on the other account), in the commodity of k.
+//@ def adjFor(tr *transaction.Transaction, k amounts.Key, q amounts.Amounts, prev price.NormalizedPrices, cur price.NormalizedPrices) bool :=
+//@     built(tr.Postings[0], tr.Postings[1], posting.Builder{Credit: (tr.Postings[0].Account == k.Account ? tr.Postings[1].Account : tr.Postings[0].Account),
+//@         Debit: k.Account, Commodity: k.Commodity, Value: mult(cur[k.Commodity] - prev[k.Commodity], q[k])})
 //@ func Valuate$1
 //@   requires d != nil && keysOK(quantities) && reg != nil && reg.accounts != nil
 //@   modifies prices, d.Transactions, d.Transactions[*], reg.accounts.index[*]
@@ -153,6 +158,12 @@ package journal
 //@   ensures @missing: result == nil ==> (forall k amounts.Key :: {key(quantities, k)} (k in quantities) && needsReval(k, quantities, valuation) ==> (k.Commodity in prevPrices) && (k.Commodity in d.Normalized))
 //@   ensures @kept: len(d.Transactions) >= old(len(d.Transactions)) && (forall j int :: {d.Transactions[j]} 0 <= j && j < old(len(d.Transactions)) ==> d.Transactions[j] == old(d.Transactions[j]))
 //@   ensures @adj: forall j int :: {d.Transactions[j]} old(len(d.Transactions)) <= j && j < len(d.Transactions) ==> adjustment(d.Transactions[j], d)
+//@   ensures [C03] [C16] @from: forall j int :: {d.Transactions[j]} old(len(d.Transactions)) <= j && j < len(d.Transactions) ==>
+//@        (exists k amounts.Key :: {key(quantities, k)} (k in quantities) && needsReval(k, quantities, valuation) && prevPrices[k.Commodity] != d.Normalized[k.Commodity]
+//@            && adjFor(d.Transactions[j], k, quantities, prevPrices, d.Normalized))
+//@   loop 1 invariant [C03] [C16] @from: forall j int :: {d.Transactions[j]} old(len(d.Transactions)) <= j && j < len(d.Transactions) ==>
+//@        (exists k amounts.Key :: {key(quantities, k)} (k in quantities) && needsReval(k, quantities, valuation) && prevPrices[k.Commodity] != d.Normalized[k.Commodity]
+//@            && adjFor(d.Transactions[j], k, quantities, prevPrices, d.Normalized))
 //@   loop 1 invariant prices == d.Normalized && keysOK(quantities) && d.Date == old(d.Date) && d.Normalized == old(d.Normalized)
 //@   loop 1 invariant forall k amounts.Key :: {$seen[k]} $seen[k] && needsReval(k, quantities, valuation) ==> (k.Commodity in prevPrices) && (k.Commodity in d.Normalized)
 //@   loop 1 invariant len(d.Transactions) >= old(len(d.Transactions)) && (forall j int :: {d.Transactions[j]} 0 <= j && j < old(len(d.Transactions)) ==> d.Transactions[j] == old(d.Transactions[j]))
